@@ -7,8 +7,8 @@
 MODE=${1:-rename}
 WT=/tmp/neutral_wt_$$
 git -C /repo worktree add -q --detach $WT HEAD || exit 3
-if [ "$MODE" = noop ]; then sed "s/SUFFIX = '_nr'/SUFFIX = ''/; s/^NOOP = False/NOOP = True/" /verif/tools/neutral_rename.py > /tmp/neutral_fmt_$$.py; /venv/bin/python /tmp/neutral_fmt_$$.py $WT; rm -f /tmp/neutral_fmt_$$.py
-elif [ "$MODE" = format ]; then sed "s/SUFFIX = '_nr'/SUFFIX = ''/" /verif/tools/neutral_rename.py > /tmp/neutral_fmt_$$.py; /venv/bin/python /tmp/neutral_fmt_$$.py $WT; rm -f /tmp/neutral_fmt_$$.py
+if [ "$MODE" = noop ]; then /venv/bin/python /verif/tools/neutral_rename.py $WT --suffix '' --noop
+elif [ "$MODE" = format ]; then /venv/bin/python /verif/tools/neutral_rename.py $WT --suffix ''
 else /venv/bin/python /verif/tools/neutral_rename.py $WT; fi
 PYTHONPATH=$WT:$WT/lint_rules /venv/bin/python -c "import loki, lint_rules" || { echo "rewritten copy does not import"; git -C /repo worktree remove --force $WT; exit 3; }
 cd /verif; bad=0
